@@ -22,7 +22,7 @@ SRC = os.path.join(REPO, "falcon-rust", "src")
 BUILD = os.path.join(VERIF, "build", "vx")
 
 VERIFICATION_ERRORS = [
-    "postcondition not satisfied", "precondition not satisfied", "assertion failed",
+    "postcondition not satisfied", "precondition not satisfied", "precondition not met", "assertion failed",
     "invariant not satisfied", "possible arithmetic underflow/overflow",
     "possible division by zero", "decreases not satisfied", "possible bit shift",
     "loop invariant", "assertion failure", "unreachable", "failed this postcondition",
